@@ -23,6 +23,50 @@ See the included GPLv3 LICENSE file
 namespace nifly {
 constexpr auto NIF_NPOS = static_cast<uint32_t>(-1);
 
+#ifdef NIFLY_VERIF
+// Verification hooks (compiled only with -DNIFLY_VERIF). They announce the kind and width
+// of the next raw stream access and report reference objects passing through Sync; they
+// never supply or alter data.
+namespace verif {
+enum Kind : int {
+	K_RAW = 0,
+	K_BOOL,
+	K_INT,
+	K_ENUM,
+	K_FLOAT,
+	K_STRUCT,
+	K_HALF,
+	K_REF,
+	K_STRIDX,
+	K_STRLEN,
+	K_COUNT,
+	K_STRDATA
+};
+struct Hooks {
+	void* ctx = nullptr;
+	void (*announce)(void* ctx, int kind, size_t width, const void* site) = nullptr;
+	void (*on_ref)(void* ctx, void* ref, bool writing) = nullptr;
+	void (*on_strref)(void* ctx, void* ref, bool writing) = nullptr;
+};
+extern Hooks* g_hooks;
+template<typename T>
+constexpr int KindOf() {
+	if constexpr (std::is_same_v<T, bool>)
+		return K_BOOL;
+	else if constexpr (std::is_enum_v<T>)
+		return K_ENUM;
+	else if constexpr (std::is_integral_v<T>)
+		return K_INT;
+	else if constexpr (std::is_floating_point_v<T>)
+		return K_FLOAT;
+	else
+		return K_STRUCT;
+}
+void Announce(int kind, size_t width); // out of line (BasicTypes.cpp), never inlined
+} // namespace verif
+#define NIFLY_VERIF_ANNOUNCE(kind, width) ::nifly::verif::Announce((kind), (width))
+#endif
+
 constexpr auto NiCharMin = std::numeric_limits<char>::min();
 constexpr auto NiCharMax = std::numeric_limits<char>::max();
 constexpr auto NiByteMin = std::numeric_limits<uint8_t>::min();
@@ -289,6 +333,9 @@ public:
 
 	template<typename T>
 	void Sync(T& t) {
+#ifdef NIFLY_VERIF
+		NIFLY_VERIF_ANNOUNCE(verif::KindOf<T>(), sizeof(T));
+#endif
 		Sync(reinterpret_cast<char*>(&t), sizeof(T));
 	}
 
@@ -343,6 +390,9 @@ public:
 
 	void SyncHalf(float& fl) {
 		half_float::half halfData;
+#ifdef NIFLY_VERIF
+		NIFLY_VERIF_ANNOUNCE(verif::K_HALF, 2);
+#endif
 
 		if (mode == Mode::Writing)
 			halfData = fl;
@@ -604,6 +654,9 @@ public:
 
 		sz = Base::size();
 
+#ifdef NIFLY_VERIF
+		NIFLY_VERIF_ANNOUNCE(verif::K_COUNT, NumSize);
+#endif
 		stream.Sync(reinterpret_cast<char*>(&sz), NumSize);
 		return sz;
 	}
@@ -652,6 +705,9 @@ public:
 
 		sz = Base::size();
 
+#ifdef NIFLY_VERIF
+		NIFLY_VERIF_ANNOUNCE(verif::K_COUNT, NumSize);
+#endif
 		stream.Sync(reinterpret_cast<char*>(&sz), NumSize);
 		return sz;
 	}
@@ -697,6 +753,9 @@ public:
 
 	void Read(NiIStream& stream) {
 		SizeType sz = 0;
+#ifdef NIFLY_VERIF
+		NIFLY_VERIF_ANNOUNCE(verif::K_COUNT, NumSize);
+#endif
 		stream.read(reinterpret_cast<char*>(&sz), NumSize);
 
 		Base::resize(sz);
@@ -710,6 +769,9 @@ public:
 			Base::resize(MaxIndex + 1);
 
 		SizeType sz = Base::size();
+#ifdef NIFLY_VERIF
+		NIFLY_VERIF_ANNOUNCE(verif::K_COUNT, NumSize);
+#endif
 		stream.write(reinterpret_cast<char*>(&sz), NumSize);
 
 		for (auto& e : *this)
@@ -737,6 +799,9 @@ public:
 
 	void Read(NiIStream& stream) {
 		SizeType sz = 0;
+#ifdef NIFLY_VERIF
+		NIFLY_VERIF_ANNOUNCE(verif::K_COUNT, NumSize);
+#endif
 		stream.read(reinterpret_cast<char*>(&sz), NumSize);
 
 		Base::resize(sz);
@@ -750,6 +815,9 @@ public:
 			Base::resize(MaxIndex + 1);
 
 		SizeType sz = Base::size();
+#ifdef NIFLY_VERIF
+		NIFLY_VERIF_ANNOUNCE(verif::K_COUNT, NumSize);
+#endif
 		stream.write(reinterpret_cast<char*>(&sz), NumSize);
 
 		for (auto& e : *this)
@@ -772,7 +840,18 @@ public:
 	NiBlockRef() {}
 	NiBlockRef(const uint32_t id) { NiRef::index = id; }
 
+#ifdef NIFLY_VERIF
+	void Sync(NiStreamReversible& stream) {
+		if (verif::g_hooks && verif::g_hooks->on_ref)
+			verif::g_hooks->on_ref(verif::g_hooks->ctx,
+								   static_cast<NiRef*>(this),
+								   stream.GetMode() == NiStreamReversible::Mode::Writing);
+		NIFLY_VERIF_ANNOUNCE(verif::K_REF, 4);
+		stream.Sync(reinterpret_cast<char*>(&base::index), 4);
+	}
+#else
 	void Sync(NiStreamReversible& stream) { stream.Sync(base::index); }
+#endif
 };
 
 template<typename T>
@@ -846,7 +925,12 @@ public:
 		if (stream.GetMode() == NiStreamReversible::Mode::Writing)
 			CleanInvalidRefs();
 
+#ifdef NIFLY_VERIF
+		NIFLY_VERIF_ANNOUNCE(verif::K_COUNT, 4);
+		stream.Sync(reinterpret_cast<char*>(&arraySize), 4);
+#else
 		stream.Sync(arraySize);
+#endif
 		refs.resize(arraySize);
 
 		for (auto& r : refs)
@@ -910,6 +994,9 @@ public:
 		if (stream.GetMode() == NiStreamReversible::Mode::Writing)
 			base::CleanInvalidRefs();
 
+#ifdef NIFLY_VERIF
+		NIFLY_VERIF_ANNOUNCE(verif::K_COUNT, 2);
+#endif
 		stream.Sync(reinterpret_cast<char*>(&arraySize), 2);
 		refs.resize(arraySize);
 
